@@ -15,7 +15,9 @@ def configs(P, rng):
             subsets.append(sorted(rng.sample(idb, rng.randint(1, len(idb)))))
     for sub in subsets:
         cs.append({"name": "magic " + ",".join(sub), "args": ["-j1", "--magic-transform=" + ",".join(sub)]})
-    for rel in idb[:3]:
+    negated = sorted({l["rel"] for c in P["clauses"] for l in c["body"] if l["k"] == "neg"} & set(idb))
+    targets = list(dict.fromkeys(negated + idb[:3]))[:6]
+    for rel in targets:
         cs.append({"name": "qualifier magic " + rel, "args": ["-j1"], "transform": (lambda P_, rel=rel: with_qual(P_, rel, "magic")), "reject_ok": True})
         cs.append({"name": "magic * / no_magic " + rel, "args": ["-j1", "--magic-transform=*"],
                    "transform": (lambda P_, rel=rel: with_qual(P_, rel, "no_magic")), "reject_ok": True})
